@@ -73,35 +73,51 @@ class C15(Property):
     thorough_cases = 5000
     design_ref = "DESIGN.md §6/C15"
     level_text = ("Unbounded Rocq theorems over the model of core/hash/consistenthash.go (keys, ring, nodes; Add/"
-                  "AddWithReplicas/AddWithWeight/Remove/Get transcribed, the hash function a parameter). For every "
-                  "hash function and history: the ring invariant (sorted keys, one key per ring entry), Get never "
-                  "fails, returns none iff the ring is empty and otherwise a value of a node in the node set; a "
-                  "removed node is never returned. For every hash that is injective on (node, index) pairs of the "
-                  "universe of nodes in use and every history: keys, buckets and Get are a function of the final "
-                  "node -> (replicas, value) map only (history independence; Get = owner of the cyclic successor of "
-                  "the key's hash among the live virtual-node hashes), and any operation on node n moves a key only "
-                  "to or from n (add new / remove / re-add with another weight). Tied to the source by differential "
-                  "execution of generated histories through the public API with murmur3 and a small-range hash.")
-    level_note = ("Trusted: Coq kernel + vm_compute; hand-written model; virtual-node and probe hashes are computed by "
+                  "AddWithReplicas/AddWithWeight/Remove/Get transcribed, the hash function a parameter) and over the "
+                  "model of its users (Cluster.v: cacheCluster / clusterStore dispatch, multi-key Del grouping, the "
+                  "cleaner's delayed retries). For every hash function and history: the ring invariant, Get never "
+                  "fails, returns none iff no node has a live virtual node and otherwise a value of a node owning the "
+                  "cyclic successor slot of the key's hash; a removed node is never returned. For every hash that is "
+                  "injective on (node, index) pairs of the universe and every history: keys, buckets and Get are a "
+                  "function of the nodes with >= 1 replica, their replica counts and values only (history "
+                  "independence), and any operation on node n moves a key only to or from n. For every cluster "
+                  "script (operations, multi-key Dels, injected store faults, cancelled contexts, ticks): every "
+                  "command reaches dispatcher.Get(key)'s node, also as a retry, and a Del reaches the owner of each "
+                  "key. agrees => prop_ok is proved for ring histories (the property check is no oracle). Tied to the "
+                  "source by differential execution: ring histories through the public API with murmur3 and a "
+                  "small-range hash; cache.New / kv.NewStore clusters over miniredis servers whose command logs give "
+                  "the (key, server) touches.")
+    level_note = ("Trusted: Coq kernel + vm_compute; hand-written models; virtual-node and probe hashes are computed by "
                   "the harness with the same Func and lang.Repr and renumbered by rank; correspondence only on "
-                  "generated histories. Remove is modelled as repaired by 18b2068 (the pinned algorithm is refuted in "
-                  "Pinned.v). Known finding collision-bucket-insertion-order: with colliding virtual nodes (ambiguous "
-                  "repr+index strings such as node1/node11) the choice inside a bucket depends on insertion order; the "
-                  "history/disruption theorems carry collision_free_on, Pinned.bucket_order_refuted is the witness, "
-                  "and two strict corpus histories exhibit it on every run (KNOWN-FINDING).")
-    rule = ("histories of 6..22 Add/AddWithReplicas/AddWithWeight/Remove over 2..6 nodes (strings, ints, int64, Stringers, "
-            "pointer Stringers, equal reprs), replicas/weights from {<0, 0, 1, .., R, >R}, h.replicas 100/120/150, 20 probe "
-            "keys read after every op; 50% murmur3 + collision-free names, 20% murmur3 + ambiguous names (node1/node11), "
-            "30% small-range hash (murmur3 mod 7..1009). non-trivial = at least two members at some point, at least one "
-            "remove or re-add, and some probe changes owner; distinct = canonical JSON hash of the case")
+                  "generated histories / scripts; the key(s) of a redis command are read off its arguments by the "
+                  "harness (script.go keysOf); harness/overlay/cache/zz_verif_c15.go adds a constructor so that the "
+                  "executor owns the cleaner wheel's ticker. Known finding collision-bucket-insertion-order: with "
+                  "coinciding virtual-node strings (node1/node11; a/a1/a12 three-way) the choice inside a bucket "
+                  "depends on insertion order; the history/disruption theorems carry collision_free_on, "
+                  "Pinned.bucket_order_refuted / add_moves_between_others_refuted are the witnesses, and two strict "
+                  "corpus histories exhibit it on every run (KNOWN-FINDING); known() excuses only order-clause failures "
+                  "located in slots shared by string-coinciding virtual nodes of a strict murmur history.")
+    rule = ("ring: histories of 6..22 Add/AddWithReplicas/AddWithWeight/Remove over 2..6 nodes (every kind lang.Repr "
+            "distinguishes, equal reprs, ambiguous names), replicas/weights from {<0, 0, 1, .., R, >R}, h.replicas "
+            "100/120/150, 20 probe keys read after every op; 50% murmur3 + clean names, 20% murmur3 + ambiguous names, "
+            "30% small-range hash. clusters: 2-4 miniredis servers, 1-3 instances (cache.New / kv.NewStore, also "
+            "single-node, same node set in different orders, 4-/5-digit colliding ports), scripts of single-key "
+            "operations (the whole API of both), Del with 0/1/n keys, Del under an injected server fault or with a "
+            "cancelled context, cleaner ticks (first and second retry), per-server snapshots; corpus: the whole API on "
+            "every key. non-trivial = ring: two members, a remove or re-add, some probe changes owner; script: "
+            "touches on >= 2 servers; distinct = canonical JSON hash of the case")
     trusted_base = [
-        "model theories/C15/Model.v is hand-written; tie = correspondence run (harness/cmd/c15) through the public API",
+        "models theories/C15/Model.v, Cluster.v are hand-written; tie = correspondence runs (harness/cmd/c15) through the public API",
         "the harness computes hashFunc(repr+itoa(i)), hashFunc(repr(key)), hashFunc(innerRepr(key)) itself (lang.Repr is "
         "the real one; the innerRepr format string is copied) — a change of these formulas shows up as a disagreement",
         "sort.Slice / sort.Search (Go standard library) are modelled as sorting and first-index->=",
+        "cluster scripts: the key(s) named by a redis command are extracted from its arguments by the harness (keysOf); "
+        "miniredis pre-hooks log and fail commands; harness/overlay/cache/zz_verif_c15.go ADDS VerifC15CleanerWheel to "
+        "package cache (nothing replaced) so that ticks of the cleaner are explicit events",
     ]
     assumptions = ["node identity is lang.Repr(node); the value returned is the value stored by the latest Add of that repr",
-                   "operations are sequential (the RWMutex makes them atomic)"]
+                   "operations are sequential (the RWMutex makes them atomic); cluster scripts are sequential, the cleaner's "
+                   "goroutines are awaited after every tick"]
 
     def regen(self, ctx):
         import c15consts
